@@ -8,6 +8,7 @@ import SlotVerif.Proofs.Add
 import SlotVerif.Proofs.AddGroup
 import SlotVerif.Proofs.AddSeq
 import SlotVerif.Proofs.AddInv
+import SlotVerif.Props.C16
 /-!
 # C09 — Insertion is canonical: known terms create nothing, lookup agrees with add
 
@@ -251,6 +252,43 @@ theorem insertion_keeps_leaders_and_groups {s s' : Snap} {n syn : Node} {f2o : S
     (∀ c ∈ s'.classes, Snap.leaderOK s' c = true) ∧ (∀ c ∈ s'.classes, Grp.Valid c.slots c.gens) ∧
     ∀ c ∈ s'.classes, c ∈ s.classes ∨ (c.id = s.uf.length ∧ c.slots = SlotMap.keys f2o) :=
   ⟨Snap.add_keeps_leaderOK hok hl h, Snap.add_keeps_groups_valid hok hg h, fun _ hc => Snap.add_classes hok h hc⟩
+
+/-- what an insertion stores is a shape: every node entry of every class of the state after is an entry from before or `weakShape` of a
+node — so its first component is a fixpoint of `weakShape` (the last conjunct of `nodeOK`) whenever that held before; and the slot list
+of every class ascends strictly whenever it did before -/
+theorem insertion_stores_a_shape {s s' : Snap} {n syn : Node} {f2o : SlotMap} {data : String} {a : AppId}
+    (hok : Snap.AddOK s)
+    (hfix : ∀ c ∈ s.classes, ∀ e ∈ c.nodes, (Node.weakShape e.1).1 = e.1)
+    (hsorted : ∀ c ∈ s.classes, Snap.sortedStrict c.slots = true)
+    (h : Snap.addNew s n f2o syn data = some (s', a)) :
+    (∀ c ∈ s'.classes, ∀ e ∈ c.nodes, (Node.weakShape e.1).1 = e.1) ∧ ∀ c ∈ s'.classes, Snap.sortedStrict c.slots = true := by
+  obtain ⟨n1, perms, hs⟩ := Snap.addNew_stored h
+  obtain ⟨_, _, _, _, _, _, _, hwf, _, _, _, _, _⟩ := Snap.addNew_form h
+  have key : ∀ c ∈ s'.classes, c ∈ s.classes ∨ (c.nodes = [Node.weakShape n1] ∧ c.slots = SlotMap.keys f2o) := by
+    intro c hc
+    rw [hs] at hc
+    unfold Snap.setNew Snap.allocClass at hc
+    simp only [List.mem_map, List.mem_append, List.mem_singleton] at hc
+    obtain ⟨d, hd, rfl⟩ := hc
+    rcases hd with hd | hd
+    · left
+      have hne : (d.id == s.uf.length) = false := by
+        have := hok.2 d hd
+        simp only [beq_eq_false_iff_ne, ne_eq]; omega
+      simp only [hne]
+      exact hd
+    · right
+      subst hd
+      simp
+  refine ⟨fun c hc e he => ?_, fun c hc => ?_⟩
+  · rcases key c hc with hold | ⟨hn, _⟩
+    · exact hfix c hold e he
+    · rw [hn, List.mem_singleton] at he
+      subst he
+      exact SV.Node.C16.weakShape_idem n1
+  · rcases key c hc with hold | ⟨_, hsl⟩
+    · exact hsorted c hold
+    · rw [hsl]; exact Snap.sortedStrict_keys _ hwf
 
 /-- non-vacuity: on the empty e-graph the node `f2($8, $12)` (variant 7, two slot fields) is a miss; with the fresh slots
 `101, 105` handed in, the model allocates class 0 -/
